@@ -348,23 +348,19 @@ Definition declares_signal (defs : list def) (id : Z) (name : bytes) : bool :=
           (message_defs defs).
 Definition declares_node (defs : list def) (name : bytes) : bool :=
   existsb (fun n => bytes_eqb n name) (declared_nodes defs).
-(** the declared length of signal (id, name), if any *)
-Definition declared_length (defs : list def) (id : Z) (name : bytes) : option Z :=
-  match find (fun md => can_id md =? id) (message_defs defs) with
-  | Some md => option_map sg_size (find (fun sd => bytes_eqb (sg_name sd) name) (m_signals md))
-  | None => None
-  end.
+(** a signal (id, name) of declared length [len] exists *)
+Definition declares_signal_len (defs : list def) (id : Z) (name : bytes) (len : Z) : bool :=
+  existsb (fun md => (can_id md =? id) &&
+                     existsb (fun sd => bytes_eqb (sg_name sd) name && (sg_size sd =? len)) (m_signals md))
+          (message_defs defs).
 
 Definition spec_warning (defs : list def) (d : def) : list warn_kind :=
   match d with
   | DSignalValueType _ id name vt =>
-      match declared_length defs (msgid_to_can id) name with
-      | None => [WNoSignal]
-      | Some len =>
-          if vt =? 0 then []
-          else if vt =? 1 then (if len =? 32 then [] else [WFloatLength])
-          else [WUnsupportedType]
-      end
+      if negb (declares_signal defs (msgid_to_can id) name) then [WNoSignal]
+      else if vt =? 0 then []
+      else if vt =? 1 then (if declares_signal_len defs (msgid_to_can id) name 32 then [] else [WFloatLength])
+      else [WUnsupportedType]
   | DComment c =>
       match cm_object c with
       | OtNode => if declares_node defs (cm_node c) then [] else [WNoNode]
